@@ -495,7 +495,8 @@ impl<T: Elem + SatisfyTraits<Tr>, M: MX, Tr: TrX + ?Sized> World<T, M, Tr> {
             Edge::WrongSpliceItem { a, b, rn, bad_at, ty } => self.do_wrong_splice(ix(a), ix(b), rn as usize, bad_at as usize, ty, out),
             Edge::WrongSwap(kind, ty) => self.do_wrong_swap(kind, ty, out),
             Edge::WrongDowncast(kind, ty) => self.do_wrong_downcast(kind, ty, out),
-            Edge::TypeReports(_) => self.do_type_reports(out),
+            Edge::TypeReports(0) => self.do_type_reports(out),
+            Edge::TypeReports(_) => self.do_element_fns(out),
             Edge::RawParts { variant, then } => self.do_raw_parts(variant, then, out),
             Edge::Bytes { variant: 6, k } => self.do_placement(k as usize * 8, out),
             Edge::Bytes { variant, k } => self.do_bytes(variant, k as usize, out),
